@@ -109,7 +109,12 @@ func c01Configs(tier string) []c01cfg {
 		// bad x bad diagonal
 		for i, a := range scripts {
 			for j, b := range scripts {
-				if tier == "quick" && !(i == 0 || j == 0 || i == j) {
+				// quick: "ok" x every script, the diagonal, and pairs where one target turns healthy late
+				// but in time while the other one does so just after the deploy timeout (a per-target
+				// timeout would let the second one through)
+				lateOK := func(p pscript) bool { return p.firstOK > 0 && p.firstOK < vT-time.Second }
+				justAfter := func(p pscript) bool { return p.firstOK > vT }
+				if tier == "quick" && !(i == 0 || j == 0 || i == j || (lateOK(a) && justAfter(b)) || (lateOK(b) && justAfter(a))) {
 					continue
 				}
 				if tier == "quick" && x.pre == "rollout" && !(i == 0 || j == 0) {
